@@ -62,8 +62,26 @@ MixProgs ==
       a \in {d \in Level1 : d.gen = <<>>}, mo \in MixinOwn, mp \in MixinOpts, ord \in {<<1, 2>>, <<2, 1>>},
       down \in {<<>>, <<F("s_z", TInt, Def(MkInt(7)), "F")>>} }
 
-Init == prog \in {<<d>> : d \in Level1} \cup MixProgs
-Next == /\ Len(prog) < MaxLevel /\ ProgOK(prog, Len(prog)) /\ (IF Len(prog) < 2 THEN TRUE ELSE prog[2].name # "M")
+(* a diamond over a shared pane ancestor: A ; B(A) ; C(A) ; D(B, C) or D(C, B), all non-generic (terminal programs). *)
+(* The linearisation of D(B, C) is D, B, C, A: a name declared by C and not by B takes C's spec although B's      *)
+(* inherited copy of A's spec lies before it; D's options come from its first base.                               *)
+DiaA == { d \in Level1 : d.gen = <<>> /\ d.opts \in {AllUnset, [AllUnset EXCEPT !.inf = <<"struct", "tuple">>, !.outf = "tuple"]} }
+DiaBOwn == { <<>>, <<F("s_x", TFloat, Def(MkFloat(<<3, 2>>)), "F")>>, <<F("s_z", TStr, Def(MkStr("s_a")), "F")>>,
+             <<F("s_y", TInt, Def(MkInt(0)), "T")>> }
+DiaCOwn == { <<F("s_x", TStr, Def(MkStr("s_a")), "F")>>, <<F("s_w", TInt, Def(MkInt(0)), "F")>>,
+             <<F("s_y", TFloat, NoDef, "F")>>, <<F("s_z", TInt, Def(MkInt(7)), "F"), F("s_x", TInt, Def(MkInt(1)), "F")>> }
+DiaBOpts == IF Rich THEN { AllUnset, [AllUnset EXCEPT !.kw_only = "T"], [AllUnset EXCEPT !.frozen = "F"] } ELSE { AllUnset, [AllUnset EXCEPT !.kw_only = "T"] }
+DiaCOpts == IF Rich THEN { AllUnset, [AllUnset EXCEPT !.extra = "T"], [AllUnset EXCEPT !.inf = <<"struct">>] } ELSE { AllUnset, [AllUnset EXCEPT !.extra = "T"] }
+DiaProgs ==
+  { << a,
+       [name |-> "B", base |-> 1, bargs |-> <<>>, gen |-> <<>>, own |-> bo, marker |-> Len(bo), opts |-> bp],
+       [name |-> "C", base |-> 1, bargs |-> <<>>, gen |-> <<>>, own |-> co, marker |-> Len(co), opts |-> cp],
+       [name |-> "D", base |-> ord[1], mix |-> ord[2], bargs |-> <<>>, gen |-> <<>>, own |-> down, marker |-> Len(down), opts |-> AllUnset] >> :
+      a \in DiaA, bo \in DiaBOwn, bp \in DiaBOpts, co \in DiaCOwn, cp \in DiaCOpts, ord \in {<<2, 3>>, <<3, 2>>},
+      down \in {<<>>, <<F("s_z", TInt, Def(MkInt(7)), "F")>>} }
+
+Init == prog \in {<<d>> : d \in Level1} \cup MixProgs \cup DiaProgs
+Next == /\ Len(prog) < MaxLevel /\ ProgOK(prog, Len(prog)) /\ (IF Len(prog) < 2 THEN TRUE ELSE prog[2].name # "M" /\ prog[Len(prog)].name # "D")
         /\ \E d \in (IF Len(prog) = 1 THEN Extend("B", 1, Own2, OptChoices2)
                      ELSE Extend("C", 2, Own3, IF Rich THEN OptChoices2 ELSE {AllUnset})) :
               prog' = Append(prog, d)
@@ -82,5 +100,16 @@ SelfSubscription == OKProg => LET ps == Params(prog, Last) IN
 InheritedKept == (OKProg /\ prog[Last].base # 0 /\ Mix(prog[Last]) = 0) =>
    LET b == RawSpecs(prog, prog[Last].base)  c == RawSpecs(prog, Last) IN
    Len(c) >= Len(b) /\ \A j \in DOMAIN b : c[j].n = b[j].n
+(* in a diamond the spec of every name is the one of the first class of the linearisation that declares it *)
+DiamondByMro == (OKProg /\ Mix(prog[Last]) # 0) =>
+   LET m == Mro(prog, Last)  raw == RawSpecs(prog, Last) IN
+   \A j \in DOMAIN raw :
+      LET decl == SelectSeq(m, LAMBDA c : \E k \in DOMAIN prog[c].own : prog[c].own[k].n = raw[j].n)
+          c == decl[1]  own == prog[c].own IN
+      \E k \in DOMAIN own : own[k].n = raw[j].n /\ own[k].t = raw[j].t
+(* a linearisation lists every class once, the class itself first, every class before its bases *)
+MroSound == LET m == Mro(prog, Last) IN
+   /\ m[1] = Last /\ \A a, b \in DOMAIN m : a # b => m[a] # m[b]
+   /\ \A a, b \in DOMAIN m : (prog[m[a]].base = m[b] \/ Mix(prog[m[a]]) = m[b]) => a < b
 ParamsOnce == LET ps == Params(prog, Last) IN \A a, b \in DOMAIN ps : a # b => ps[a] # ps[b]
 =============================================================================
